@@ -21,6 +21,22 @@ func main() {
 		cmdVerify(os.Args[2:])
 	case "check":
 		cmdCheck(os.Args[2:])
+	case "funcs":
+		w, err := loadWorld("/repo", []string{"./..."})
+		if err != nil {
+			fmt.Fprintln(os.Stderr, err)
+			os.Exit(2)
+		}
+		var ks []string
+		for k := range w.funcsByKey {
+			if len(os.Args) < 3 || strings.Contains(k, os.Args[2]) {
+				ks = append(ks, k)
+			}
+		}
+		sort.Strings(ks)
+		for _, k := range ks {
+			fmt.Println(k)
+		}
 	default:
 		fmt.Fprintln(os.Stderr, "unknown command", os.Args[1])
 		os.Exit(2)
@@ -125,6 +141,13 @@ func cmdVerify(args []string) {
 		for _, o := range r.Obligations {
 			if !o.OK || *verbose {
 				fmt.Printf("    %-70s %s (want %s) %s %.2fs\n", o.Name, o.Verdict, o.Expect, o.Solver, o.Time)
+				if !o.OK && o.Note != "" {
+					n := o.Note
+					if len(n) > 700 {
+						n = n[:700]
+					}
+					fmt.Printf("      note: %s\n", n)
+				}
 				if !o.OK && o.Model != "" && *verbose {
 					fmt.Printf("      model: %s\n", strings.ReplaceAll(o.Model, "\n", " "))
 				}
